@@ -63,4 +63,23 @@ theorem prefixUpper_spec_bool (p k : Bytes) :
               simpa [belowUpper, hc, blt_cons_cons, hlt] using ih'
             · simpa [belowUpper, hc] using ih'
 
+theorem effEnd_none {p : Bytes} (hq : prefixUpper p ≠ some emptyValue) : effEnd p none = prefixUpper p := by
+  unfold effEnd
+  cases hu : prefixUpper p with
+  | none => rfl
+  | some u =>
+    have : u ≠ emptyValue := by rintro rfl; exact hq hu
+    simp [this]
+
+theorem range_prefixUpper (m : Map) (p : Bytes) : range m p (prefixUpper p) = withPrefix m p := by
+  unfold range withPrefix
+  congr 1
+  funext e
+  exact prefixUpper_spec_bool p e.1
+
+/-- the range a prefix scan `Iterator(p, nil, _)` runs over. -/
+theorem range_prefix (m : Map) {p : Bytes} (hq : prefixUpper p ≠ some emptyValue) :
+    range m p (effEnd p none) = withPrefix m p := by
+  rw [effEnd_none hq, range_prefixUpper]
+
 end C06
